@@ -83,7 +83,7 @@ def run_tlc(module, cfg, env=None, workers=1, timeout=1800, mode="bfs", seed=Non
     build_java()
     os.makedirs(WORK, exist_ok=True)
     meta = os.path.join(WORK, f"md.{tag}.{os.getpid()}.{int(time.time()*1000)%100000}")
-    jopts = ["-XX:+UseParallelGC", "-Xss1g", f"-Xmx{heap}"]
+    jopts = ["-XX:+UseParallelGC", "-XX:ParallelGCThreads=2", "-Xss1g", f"-Xmx{heap}"]
     if deque:
         jopts.append("-Dtlc2.tool.queue.IStateQueue=StateDeque")
     if os.path.isdir(CLASSES) and os.environ.get("VERIF_NO_OVERRIDES") != "1" \
@@ -99,6 +99,7 @@ def run_tlc(module, cfg, env=None, workers=1, timeout=1800, mode="bfs", seed=Non
     cmd += [os.path.join(SPEC, module + ".tla")]
     e = dict(os.environ)
     e.pop("JAVA_TOOL_OPTIONS", None)
+    e["VERIF_TABLES"] = os.path.join(SPEC, "tables")
     if env:
         e.update({k: str(v) for k, v in env.items()})
     t0 = time.time()
